@@ -1,7 +1,9 @@
 pub mod auth;
+pub mod eq;
 pub mod parse;
 pub mod paths;
 pub mod refs;
+pub mod resolve;
 
 use crate::common::Fails;
 use serde_json::Value;
@@ -14,6 +16,8 @@ pub fn run_case(case: &Value, f: &mut Fails) -> Result<(), String> {
 		Some("auth") => auth::run(case, f),
 		Some("path") => paths::run_path(case, f),
 		Some("iter") => paths::run_iter(case, f),
+		Some("resolve") => resolve::run(case, f),
+		Some("eqgroup") => eq::run(case, f),
 		Some("ref") => refs::run(case, f),
 		Some(k) => return Err(format!("unknown case kind {k}")),
 		None => return Err("case without kind".into()),
